@@ -452,6 +452,32 @@ protected:
     }
 #endif
 
+    // Accessors used by references whose bit offset is a run-time value: touch only the bytes
+    // that the bit range [first_bit, first_bit + NumBits) spans, never the whole bitfield_t.
+    static auto spanned_bytes(unsigned first_bit) -> std::size_t
+    {
+        std::size_t const n = (first_bit + NumBits + 7) / 8;
+        return n < sizeof(bitfield_t) ? n : sizeof(bitfield_t);
+    }
+
+    auto get_data_partial(unsigned first_bit) const -> bitfield_t
+    {
+        bitfield_t ret = 0;
+        unsigned char const* from = gil_reinterpret_cast_c<unsigned char const*>(_data_ptr);
+        unsigned char* to = gil_reinterpret_cast<unsigned char*>(&ret);
+        for (std::size_t i = 0, n = spanned_bytes(first_bit); i < n; ++i)
+            to[i] = from[i];
+        return ret;
+    }
+
+    void set_data_partial(bitfield_t const& val, unsigned first_bit) const
+    {
+        unsigned char const* from = gil_reinterpret_cast_c<unsigned char const*>(&val);
+        unsigned char* to = gil_reinterpret_cast<unsigned char*>(_data_ptr);
+        for (std::size_t i = 0, n = spanned_bytes(first_bit); i < n; ++i)
+            to[i] = from[i];
+    }
+
 private:
     void set(integer_t value) const {     // can this be done faster??
         this->derived().set_unsafe(((value % num_values) + num_values) % num_values);
@@ -662,7 +688,7 @@ public:
     auto get() const -> integer_t
     {
         const BitField channel_mask = static_cast< integer_t >( parent_t::max_val ) <<_first_bit;
-        return static_cast< integer_t >(( this->get_data()&channel_mask ) >> _first_bit );
+        return static_cast< integer_t >(( this->get_data_partial( _first_bit )&channel_mask ) >> _first_bit );
     }
 };
 
@@ -708,12 +734,12 @@ public:
     auto get() const -> integer_t
     {
         BitField const channel_mask = static_cast< integer_t >( parent_t::max_val ) << _first_bit;
-        return static_cast< integer_t >(( this->get_data()&channel_mask ) >> _first_bit );
+        return static_cast< integer_t >(( this->get_data_partial( _first_bit )&channel_mask ) >> _first_bit );
     }
 
     void set_unsafe(integer_t value) const {
         const BitField channel_mask = static_cast< integer_t >( parent_t::max_val ) << _first_bit;
-        this->set_data((this->get_data() & ~channel_mask) | value<<_first_bit);
+        this->set_data_partial((this->get_data_partial( _first_bit ) & ~channel_mask) | value<<_first_bit, _first_bit);
     }
 };
 } }  // namespace boost::gil
